@@ -1,7 +1,9 @@
 /-
 Props/C19 — Install and download manifests select exactly the tagged files.
-Property theorems only; helper lemmas are in Proofs/Manifest{Bits,Ser,Builder,Query}.
-Model = Model/Manifest (the Rust builders, masks, serialiser, parser, queries as written);
+Property theorems only; helper lemmas are in Proofs/Manifest{Bits,Ser,Builder,Query,Download,Ext}.
+Model = Model/Manifest (the Rust builders, masks, serialiser, parser, queries as written) +
+Model/ManifestExt (whole SizeManifestBuilder, UTF-8 checks inside the readers) over the size-manifest
+wire format and `validUtf8` of Model/Serial (property C08, imported);
 Spec = Spec/TagSets (tag ↦ membership vector, `eraseIdx` for file removal, MSB-first `msbBit`).
 -/
 import Cascette.Proofs.ManifestBits
